@@ -48,6 +48,7 @@ class UnitResult:
         self.gen_path = ''
         self.wall_s = 0.0
         self.n_contract_clauses = 0
+        self.degraded = []
 
 def _run(path, cwd, extra, timeout):
     cmd = ['verus', os.path.basename(path)] + VERUS_FLAGS + extra
@@ -133,6 +134,7 @@ def run_unit(repo, spec_path, workdir, rlimit=None, timeout=900, with_canary=Tru
         res.wall_s = time.time() - t0
         return res
     res.functions = g.functions
+    res.degraded = [l for f in g.functions for l in f.get('lost_splices', [])]
     res.rule_log = g.rule_log
     res.assumptions = scan_assumptions(g)
     res.generated = g
